@@ -276,6 +276,7 @@ func runC06(r *core.Run) {
 		r.Distinct(core.Hash64(d.Render()) ^ uint64(i%4))
 	})
 	c06History(r)
+	c06HistoryScan(r)
 }
 
 func replayC06(r *core.Run, kind string, raw json.RawMessage) {
